@@ -409,13 +409,13 @@ def _gen_vec_seconds(rng):
     n = rng.choice([2, 3, rng.randint(4, 40), rng.randint(40, 300)])
     j = rng.randint(0, n - 1)
     delta = rng.choice([0, 1, 400000, 500000, 500001, 999999, 600000, step // 2, step - 1 if step > 1 else 0])
-    if rng.random() < 0.3:
+    if rng.random() < 0.4:
         # steps with fractions of a millisecond, an element a few hundred µs before the change: the instant is start + t·step
         # to the microsecond (not accumulated in floats, not rounded to milliseconds)
         p = rng.choice([1e-5, 2.5e-5, 1 / 7, 1e-4 / 3, 1.5e-5])
         step = td_exact_us(p)
         j = rng.randint(1, n - 1)
-        delta = rng.choice([1, 100, 300, 499, 500, 501, 700, 999])
+        delta = rng.choice([1, 1, 50, 100, 100, 300, 499, 500, 501, 700, 999])
     start_us = boundary * 10 ** 6 - j * step - delta
     return {"t": "vec", "file": f, "start": start_us // 10 ** 6, "us": start_us % 10 ** 6, "n": n, "period": 1, "fperiod": p,
             "seconds": True}
@@ -1424,7 +1424,9 @@ def oracle(case, obs):
             if all(s_[0] == "ok" for s_ in ospecs):
                 expo = sum(s_[1] * a for s_, a in zip(ospecs, agg)) * (p / 60)
                 if isinstance(obs["energy_cost_other"], str) or not close(obs["energy_cost_other"], expo, 1e-9):
-                    fails[f"explicit_tariff_not_used:{oname}"] = (f"energy_cost(sim, {oname}) on a simulation whose signal is {name}: "
+                    # the simulation's own tariff was used instead (a wrong cost of another kind is an energy_cost failure)
+                    own = _same(obs["energy_cost_other"], obs["energy_cost"]) and not close(obs["energy_cost"], expo, 1e-9)
+                    fails[f"explicit_tariff_not_used:{oname}" if own else f"energy_cost_wrong:{oname}"] = (f"energy_cost(sim, {oname}) on a simulation whose signal is {name}: "
                                                                   f"{obs['energy_cost_other']} expected Σ price·power·dt = {expo}")
                 expdo = ospecs[0][2] * max(agg)
                 if isinstance(obs["demand_charge_other"], str) or not close(obs["demand_charge_other"], expdo):
